@@ -456,6 +456,20 @@ pub fn expr_strategy(cfg: &GenCfg) -> BoxedStrategy<GE> {
         .boxed()
 }
 
+/// `option::weighted` that tolerates probability 0 (always None) and 1 (always Some).
+pub fn opt_weighted<S: Strategy + 'static>(p: f64, s: S) -> BoxedStrategy<Option<S::Value>>
+where
+    S::Value: Clone + std::fmt::Debug + 'static,
+{
+    if p <= 0.0 {
+        Just(None).boxed()
+    } else if p >= 1.0 {
+        s.prop_map(Some).boxed()
+    } else {
+        proptest::option::weighted(p, s).boxed()
+    }
+}
+
 fn ty_strategy() -> impl Strategy<Value = Ty> {
     prop_oneof![
         5 => Just(Ty::Normal),
@@ -489,9 +503,9 @@ pub fn grammar_strategy(cfg: GenCfg) -> BoxedStrategy<Gram> {
     let cfg2 = cfg.clone();
     (
         proptest::collection::vec((ty_strategy(), e), n),
-        proptest::option::weighted(cfg.ws_prob, (ty_strategy(), ws_body())),
-        proptest::option::weighted(cfg.ws_prob * 0.6, (ty_strategy(), comment_body())),
-        proptest::option::weighted(if cfg.allow_shadow { 0.08 } else { 0.0 }, (0..SHADOW_NAMES.len(), any::<u8>())),
+        opt_weighted(cfg.ws_prob, (ty_strategy(), ws_body())),
+        opt_weighted(cfg.ws_prob * 0.6, (ty_strategy(), comment_body())),
+        opt_weighted(if cfg.allow_shadow { 0.08 } else { 0.0 }, (0..SHADOW_NAMES.len(), any::<u8>())),
     )
         .prop_map(move |(rules, ws, cm, shadow)| {
             let mut g = Gram { rules: vec![] };
